@@ -136,6 +136,12 @@ def rand_sched(rng, preempt=False):
     if preempt:
         # worker threads are additionally pre-empted at line events of the code under test
         sc['preempt_p'] = rng.choice([1 / 64.0, 1 / 32.0, 1 / 16.0])
+        if rng.random() < 0.5:
+            # aimed at shared state: only the line after a write to an attribute / global / item, the other task then runs a while
+            sc['preempt_mode'] = 'store'
+            # (measured on a two-line window in a seeded race: short stretches find it in 6-10 % of the runs, long ones in 0.3 %)
+            sc['preempt_p'] = rng.choice([1 / 16.0, 1 / 4.0, 1.0])
+            sc['preempt_stretch'] = [rng.choice([0, 10, 40]), rng.choice([10, 40, 400])]
     return sc
 
 
